@@ -25,6 +25,9 @@ impl Check for C10 {
         tier.pick(2_000_000, 50_000_000)
     }
     fn run_case(&self, src: &mut Src, obs: &mut Obs) -> Result<(), Fail> {
+        if src.chance(1, 600) {
+            return if src.bool() { run_long::<f64>(src, obs) } else { run_long::<f32>(src, obs) };
+        }
         let two_d = src.chance(1, 3);
         match (two_d, src.chance(1, 5)) {
             (false, false) => run1::<f64>(src, obs),
@@ -138,6 +141,73 @@ fn gen_axis<T: Flt>(src: &mut Src, obs: &mut Obs, n: usize) -> (Option<Vec<T>>, 
     let bad_len = len != n;
     let bad_ord = !strictly_increasing(&v);
     (Some(v), bad_len, bad_ord)
+}
+
+/// long axes (up to 20 000 knots) that are valid or carry exactly one irregularity - at a random position, near the end,
+/// or on the pair that straddles a multiple of a power of two (block seams of chunked scans)
+fn run_long<T: Flt>(src: &mut Src, obs: &mut Obs) -> Result<(), Fail> {
+    obs.class("dim:1");
+    obs.class("axis:long");
+    let n = match src.below(3) {
+        0 => src.usize_in(100, 1000),
+        1 => src.usize_in(1001, 5000),
+        _ => src.usize_in(5001, if T::MANT == 53 { 20_000 } else { 12_000 }),
+    };
+    let mut x: Vec<T> = (0..n).map(|i| T::of(i as f64 * 0.5 - 7.0)).collect();
+    let kind = src.below(4);
+    let pos = match src.below(4) {
+        0 => n - 1 - src.below((n as u64 / 50).max(1)) as usize,
+        1 | 2 => {
+            let b = 1usize << src.usize_in(2, 13);
+            let m = (n - 1) / b;
+            if m >= 1 {
+                obs.class("axis:irregularity-at-block-seam");
+                b * src.usize_in(1, m)
+            } else {
+                src.usize_in(1, n - 1)
+            }
+        }
+        _ => src.usize_in(1, n - 1),
+    }
+    .clamp(1, n - 1);
+    match kind {
+        0 => {}
+        1 => x[pos] = x[pos - 1],
+        2 => x.swap(pos, pos - 1),
+        _ => x[pos] = T::nan(),
+    }
+    let viol = ["valid", "viol:order", "viol:order", "viol:order"][kind as usize];
+    obs.class(viol);
+    obs.class(["long:valid", "long:tie", "long:swap", "long:nan"][kind as usize]);
+    let two_d = src.chance(1, 3);
+    let strided = src.bool();
+    let spline = !two_d && src.chance(1, 3);
+    // the axis contiguous, or every second element of a larger array
+    let xa: ndarray::Array1<T> = if strided { crate::layout::realise1(ndarray::Array1::from_vec(x.clone()), (crate::layout::Layout::Strided, src.next()), T::of(-9.0e9)) } else { ndarray::Array1::from_vec(x.clone()) };
+    let desc = format!("T={} long axis n={n}, {} at {pos}, {} axis, {}", T::NAME, ["no irregularity", "tie", "swapped pair", "NaN"][kind as usize], if strided { "non-contiguous" } else { "contiguous" },
+        if two_d { "Bilinear (as y axis)" } else if spline { "CubicSpline" } else { "Linear" });
+    let res = catch(|| -> Result<(), ndarray_interp::BuilderError> {
+        if two_d {
+            let d = ArrayD::from_elem(IxDyn(&[2, n]), T::one());
+            build2::<T>(None, Some(xa), d, DDim::S2, false).unwrap().map(|_| ())
+        } else {
+            let d = ArrayD::from_elem(IxDyn(&[n]), T::one());
+            let st = if spline { Strat1::Spline { extrapolate: false, bc: Bc::Natural } } else { Strat1::Linear { extrapolate: false } };
+            build1::<T>(Some(xa), d, DDim::S1, &st).unwrap().map(|_| ())
+        }
+    });
+    obs.asserts += 1;
+    match res {
+        Err(p) => fail!(format!("panic/long/{viol}"), "build panicked: {p}; {desc}"),
+        Ok(Ok(())) if kind != 0 => fail!("invalid-accepted/viol:order/long-axis", "build() returned an interpolator although the axis is not strictly increasing; {desc}"),
+        Ok(Err(e)) if kind == 0 => fail!("valid-rejected/long-axis", "build() rejected a valid long axis with {e:?}; {desc}"),
+        Ok(Err(e)) if BKind::of(&e) != BKind::Monotonic => fail!(format!("wrong-error-kind/{:?}", BKind::of(&e)), "build() returned {e:?} for an axis that is not strictly increasing; {desc}"),
+        _ => {}
+    }
+    obs.nontrivial = kind != 0;
+    obs.key(&desc);
+    obs.describe(|| json!({"case": desc}));
+    Ok(())
 }
 
 fn run1<T: Flt>(src: &mut Src, obs: &mut Obs) -> Result<(), Fail> {
@@ -350,7 +420,22 @@ fn run2<T: Flt>(src: &mut Src, obs: &mut Obs) -> Result<(), Fail> {
     let total = product(&shape);
     let data: Vec<T> = (0..total).map(|_| T::of(value::<T>(src, ValClass::Dyadic, 0))).collect();
     let (xv, bad_xlen, bad_xord) = gen_axis::<T>(src, obs, if rank >= 1 { nx } else { 0 });
-    let (yv, bad_ylen, bad_yord) = gen_axis::<T>(src, obs, if rank >= 2 { ny } else { 0 });
+    let (mut yv, mut bad_ylen, mut bad_yord) = gen_axis::<T>(src, obs, if rank >= 2 { ny } else { 0 });
+    // x and y as two views of one allocation (same first element, same length, other stride); y valid or not
+    let mut aliased = None;
+    if let Some(x) = &xv {
+        if rank >= 2 && nx == ny && x.len() == nx && nx >= 2 && src.chance(1, 5) {
+            let ok = src.bool();
+            let y = related_axis::<T>(src, x, ok);
+            bad_ylen = false;
+            bad_yord = !strictly_increasing(&y);
+            aliased = alias_axes::<T>(x, &y);
+            if aliased.is_some() {
+                obs.class("axes:aliasing-views");
+            }
+            yv = Some(y);
+        }
+    }
     let mut viol: Vec<(&str, BKind)> = Vec::new();
     if rank < 2 {
         viol.push(("viol:rank", BKind::ShapeError));
@@ -385,9 +470,11 @@ fn run2<T: Flt>(src: &mut Src, obs: &mut Obs) -> Result<(), Fail> {
     let yo = yv.as_ref().map(|v| ndarray::Array1::from_vec(v.clone()));
     let desc = format!("T={} 2-D strategy={} data {}{:?} x={:?} y={:?}", T::NAME, custom.map(|m| format!("custom(min {m})")).unwrap_or("Bilinear".into()), dd.name(), shape,
         xv.as_ref().map(|v| v.iter().map(|t| t.f()).collect::<Vec<_>>()), yv.as_ref().map(|v| v.iter().map(|t| t.f()).collect::<Vec<_>>()));
-    let res = catch(|| match custom {
-        None => build2::<T>(xo, yo, darr, dd, false),
-        Some(m) => build2_rec::<T>(xo, yo, darr, dd, m, log.clone(), None, None),
+    let res = catch(|| match (custom, aliased) {
+        (None, Some((xa, ya))) => build2_any::<T, ndarray::OwnedArcRepr<T>>(Some(xa), Some(ya), darr, dd, false),
+        (Some(m), Some((xa, ya))) => build2_rec_any::<T, ndarray::OwnedArcRepr<T>>(Some(xa), Some(ya), darr, dd, m, log.clone(), None, None),
+        (None, None) => build2::<T>(xo, yo, darr, dd, false),
+        (Some(m), None) => build2_rec::<T>(xo, yo, darr, dd, m, log.clone(), None, None),
     });
     obs.asserts += 1;
     let kinds: Vec<BKind> = viol.iter().map(|v| v.1).collect();
